@@ -15,7 +15,11 @@
 //	directories: plain and sharded (fanouts {8,256} | {8,16,64,256,1024}) over 1, 7 colliding,
 //	  40 and 300 | 3000 entries whose targets are real stored files / symlinks / directories of
 //	  different sizes; a nested tree (plain root -> sharded dir -> plain dir -> files) and a
-//	  filesystem import of a small temp tree via BuildUnixFSRecursive.
+//	  filesystem import of a small temp tree via BuildUnixFSRecursive;
+//	symlinks with long targets (symlink_test.go): BuildUnixFSSymlink with targets of 0..20000 bytes
+//	  around the points where a length prefix grows ("symlink:len=<n>"), and imports of temp trees
+//	  holding such symlinks in plain and in auto-sharded (1400 | 5000 entries) directories
+//	  ("import:symlinks,plain|sharded|nested").
 //
 // Checks, on every dag-pb block reachable from the returned root: Tsize of each link == encoded
 // length of the target block + (recursively, NOT de-duplicated) the sums of its links; returned
@@ -323,4 +327,6 @@ func TestBounded(t *testing.T) {
 		t.Fatal(err)
 	}
 	check(r, "recursive:tempdir", st, l, sz, -1)
+
+	symlinks(t, r)
 }
